@@ -89,8 +89,9 @@ def run(P, C, tier):
     C.rule("R6", "each path builds a history entry from the entry's own object/row: its own date, key, flag, entity (never the enclosing group's or room's)")
     ENTRY_SITES = [
         # (function, constructor regex, kind, {field position or name: expected own-source pattern})
-        ("room::load_auth_from_json", r"room::EntityRight::new$", "call", "right_map"),
-        ("room::load_user_from_json", "database::room::User", "aggr", "user_map"),
+        # own object of the entry: the JSON object of the loop item (one right of the group's array) / of the parameter
+        ("room::load_auth_from_json", r"room::EntityRight::new$", "call", "loop-item"),
+        ("room::load_user_from_json", "database::room::User", "aggr", "param"),
     ]
     for fn, ctor, kind, own in ENTRY_SITES:
         try:
@@ -120,13 +121,29 @@ def run(P, C, tier):
             if g is None:
                 C.ob("R6", "%s:%s" % (fn.split("::")[-1], name), False, site, "argument %s is not read from a JSON object" % name)
                 continue
-            # the object the value is read from: unexpanded receiver variable name
+            # the object the value is read from, identified by what it is: as_object() of the loop item / of the parameter
             recv = None
             for bi2, t2 in b.calls_to(r"Map.*::get$"):
                 if bi2 == g[3]:
-                    recv = field_path(b.call_args(bi2)[0])
-            C.ob("R6", "%s:%s" % (fn.split("::")[-1], name), recv == own, site,
-                 "entry field %s is read from `%s` (the entry's own object is `%s`): a date or flag taken from the enclosing group/room gives the entry another meaning after a restart than live or on import" % (name, recv, own))
+                    recv = b.call_args(bi2)[0]
+            kind_of = "?"
+            shown = "?"
+            if recv is not None:
+                rv_ = mir.strip(recv)
+                ds = b.var_defs(rv_) if rv_[0] == "var" else [rv_]
+                for d0 in ds:
+                    ao = mir.has_call(d0, r"serde_json::Value::as_object$")
+                    if ao is not None and ao[2]:
+                        src = mir.strip(ao[2][0])
+                        shown = b.cpath(src)
+                        if src[0] == "param":
+                            kind_of = "param"
+                        elif src[0] == "var" and mir.elem_collection(b, src) is not None:
+                            kind_of = "loop-item"
+                        else:
+                            kind_of = "other"
+            C.ob("R6", "%s:%s" % (fn.split("::")[-1], name), kind_of == own, site,
+                 "entry field %s is read from the JSON object of `%s` (%s; the entry's own object is the %s): a date or flag taken from the enclosing group/room gives the entry another meaning after a restart than live or on import" % (name, shown, kind_of, own))
     # live and import paths: the entry date is the entry row's own mdate
     for fn, want in (("room_node::EntityRightNode::parse", "self.node.mdate"), ("room_node::UserNode::parse", "self.node.mdate")):
         b = P.body(fn, required=False)
@@ -153,7 +170,7 @@ def run(P, C, tier):
             da = [field_path(x) for x in a if field_path(x).endswith("mdate")]
             ja = [field_path(x) for x in a if field_path(x) == "json" or field_path(x).endswith("_json")]
             seen_args.append(da)
-            okc = okc and len(da) == 1 and da[0].endswith("node.mdate")
+            okc = okc and len(da) == 1 and re.search(r"(^|\.)node\.mdate$|^[^.]+\.mdate$", da[0]) is not None and "Node" in cb.root_type(mir.strip([x for x in a if field_path(x).endswith("mdate")][0]))
         C.ob("R6", "%s:date" % fn.split("::")[-1], okc, "", "entry date on the live path: the mutated entry row's own mdate at every call site (%s)" % seen_args)
     # ---- R2 (a) reload query
     lq = [c for p, c in P.consts.items() if p.endswith("RoomAuthorisations::LOAD_QUERY")]
@@ -184,7 +201,22 @@ def run(P, C, tier):
             if f not in ("cdate", "mdate"):
                 continue
             n_sorts += 1
-            lst = full_path(body, a[0]).split(".")[-1]
+            lt = mir.strip(a[0])
+            if lt[0] == "field":
+                lst = lt[2]
+            else:
+                # a local list: named after the struct field it is stored in (RoomNode / AuthorisationNode literal)
+                lst = None
+                for bi2 in body.live_blocks():
+                    for si2, st2 in enumerate(body.blocks[bi2]["s"]):
+                        rv2 = st2["rv"]
+                        if rv2["r"] == "aggr" and rv2.get("kind") == "adt" and rv2.get("fields"):
+                            t2 = body.def_term(bi2, si2, rv2, 0)
+                            for fname, op in zip(t2[5], t2[4]):
+                                if mir.strip(op)[:3] == lt[:3]:
+                                    lst = fname
+                if lst is None:
+                    lst = "list#%d" % n_sorts
             owner = mir.short(body.id)
             k = "%s:%s" % (owner, lst)
             C.ob("R2", "sort:" + k, d == "asc", body.loc(bi), "%s sorted by %s %s before its entries are parsed/merged in order" % (lst, f, d))
@@ -206,14 +238,23 @@ def run(P, C, tier):
         nb = P.body("room::EntityRight::new")
         C.saw(nb)
         norm = False
-        for sb in nb.live_blocks():
-            t = nb.blocks[sb]["t"]
-            if t["k"] == "switch" and field_path(nb.switch_term(sb)) == "mutate_all":
-                for tg, vals in rights.switch_edges(nb, sb):
-                    if mir.cond_atoms(nb.switch_term(sb), vals)[1] is True:
-                        for st in nb.blocks[tg]["s"]:
-                            if nb.names.get(st["lhs"][0]) == "mutate_self" and st["rv"]["r"] == "use" and st["rv"]["o"].get("k", {}).get("v") is True:
-                                norm = True
+        lit = None
+        for bi in nb.live_blocks():
+            for si, st in enumerate(nb.blocks[bi]["s"]):
+                rv = st["rv"]
+                if rv["r"] == "aggr" and rv.get("adt") == "database::room::EntityRight":
+                    lit = nb.def_term(bi, si, rv, 0)
+        if lit is not None:
+            f = dict(zip(lit[5], lit[4]))
+            ms, ma = mir.strip(f.get("mutate_self", ("unknown",))), mir.strip(f.get("mutate_all", ("unknown",)))
+            for sb in nb.live_blocks():
+                t = nb.blocks[sb]["t"]
+                if t["k"] == "switch" and mir.strip(nb.switch_term(sb))[:3] == ma[:3] and ma[0] in ("var", "param"):
+                    for tg, vals in rights.switch_edges(nb, sb):
+                        if mir.cond_atoms(nb.switch_term(sb), vals)[1] is True:
+                            for st in nb.blocks[tg]["s"]:
+                                if ms[0] in ("var", "param") and st["lhs"] == [ms[2]] and st["rv"]["r"] == "use" and st["rv"]["o"].get("k", {}).get("v") is True:
+                                    norm = True
         C.ob("R3", "normalisation", norm, nb.loc(), "EntityRight::new sets mutate_self when mutate_all")
     except mir.MissingAnchor as e:
         C.anchor_missing("R3", "EntityRight::new", e)
